@@ -4,7 +4,7 @@ from common import SAN_BASE
 PROP = dict(
         technique=("runtime monitoring: ASan/UBSan/LSan build; harness-owned getc (counts calls, end of input or error at a chosen "
                    "position) + recording save handler + tree snapshot around mpt_parse_node"),
-        level_text=("Monitored executions of the real parser: 60k (quick) / 3M (thorough) generated documents (grammar-directed for the "
+        level_text=("Monitored executions of the real parser: 240k (quick) / 3M (thorough) generated documents (grammar-directed for the "
                     "active format, mutated, or random bytes; names/values across 255 and 65535 bytes; nesting to depth 60) x format "
                     "strings (the five ctest ones, layout::file_format, further delimiter sets of the four families, PRNG-built) x name "
                     "flag sets, driven through mpt_parse_config, the example's direct loop and mpt_parse_node into a populated root.  "
@@ -12,15 +12,15 @@ PROP = dict(
         level_note=("trusts the stack model of open sections and the tree serialiser in harness/c08_parse.c, gcc ASan/UBSan/LSan "
                     "(LSan scans conservatively; non-adjacent stray writes are not seen)"),
         legs=[dict(name="c08_parse", src=["c08_parse.c"], libs=["mptcore"], batch=256, lsan=True,
-                   floors={"mpt_parse_config": 40000, "mpt_parse_node": 25000, "direct-loop": 8000,
-                           "family:prefix": 10000, "family:enclosed": 3000, "family:enclosed-same-char": 1000,
-                           "family:separated": 3000, "family:options-only": 1500,
-                           "outcome:accepted": 8000, "outcome:rejected": 15000,
-                           "monitor:nesting-verdicts": 8000, "monitor:snapshot-compared-nonempty": 8000,
-                           "events:section": 20000, "events:sectend": 10000, "events:option+data": 50000,
-                           "state:depth>=3": 500, "doc:with-long-token": 1500,
-                           "fault:getc-error-delivered": 5000, "fault:save-refused": 1500,
-                           "state:merged-into-existing": 1500})],
+                   floors={"mpt_parse_config": 200000, "mpt_parse_node": 120000, "direct-loop": 40000,
+                           "family:prefix": 60000, "family:enclosed": 25000, "family:enclosed-same-char": 10000,
+                           "family:separated": 30000, "family:options-only": 20000,
+                           "outcome:accepted": 70000, "outcome:rejected": 100000,
+                           "monitor:nesting-verdicts": 70000, "monitor:snapshot-compared-nonempty": 50000,
+                           "events:section": 100000, "events:sectend": 50000, "events:option+data": 200000,
+                           "state:depth>=3": 5000, "doc:with-long-token": 15000,
+                           "fault:getc-error-delivered": 15000, "fault:save-refused": 5000,
+                           "state:merged-into-existing": 30000, "state:flat-section-open-at-eof": 5000})],
         rule=("case = (format string, section/option name flag sets, document bytes, getc error position or none, index of a refused "
               "save event or none, drivers run); non-trivial = mpt_parse_config delivered at least two events for the document, or "
               "rejected it after at least 8 getc calls; distinct = 64-bit hash of format string, flags, document bytes, fault "
